@@ -9,7 +9,7 @@ import itertools
 
 from ..genekernel import (chrom_parent, chunk_parent, gene_interp, mk_collection, mk_feature, mk_feature_collection,
                           mk_gene, mk_transcript)
-from ..interp import Obj, Raised, Uninterpretable
+from ..interp import ClassTok, Obj, Raised, Uninterpretable
 from ..lockernel import blocks_of, is_empty_obj, run, strand_of, strands
 from .c05 import GENOME, _report, _runner, bases
 from .c07 import consistent_frames
@@ -37,6 +37,7 @@ TX = [
     dict(exons=[(8, 12), (22, 30)], strand="MINUS", cds=[(9, 12), (22, 28)]),     # cds 9, len 12
     dict(exons=[(25, 31)], strand="PLUS", cds=None),                               # non-coding, len 6
     dict(exons=[(6, 12), (16, 22)], strand="PLUS", cds=[(8, 11)]),                 # cds 3, len 12
+    dict(exons=[(0, 24)], strand="PLUS", cds=[(0, 24)]),                           # cds 24 with an in-frame stop (ATG GCA TTG TAA ...): read-through
 ]
 FT = [
     dict(blocks=[(4, 9), (12, 15)], strand="PLUS", types=["a", "b"]),   # len 8
@@ -177,6 +178,29 @@ def _gene_case(repo, it, S, spec):
         except Raised as ex:
             out.append(("primary transcript of a second gene on the same children", f"{desc}: building a second gene from the same transcript "
                         f"objects raises {ex.exc_name} although no member is flagged primary by the caller", f"{q}.__init__"))
+    # an export reads the gene: the children stay in the order given (the tie-break of the primary rule is the position in that
+    # list), and a gene re-built from the exported dictionary names the same primary
+    if nflag <= 1:
+        n += 2
+        k, rows = run(it, repo.fn(f"{q}.to_gff"), [], {}, g)
+        if k == "ok":
+            try:
+                list(it.iterate(rows))
+            except Raised:
+                pass
+        if [id(t) for t in g.fields["transcripts"]] != [id(t) for t in txs]:
+            out.append(("children order after an export", f"{desc}: after to_gff() the gene lists its transcripts as "
+                        f"{[t.fields.get('transcript_id') for t in g.fields['transcripts']]}; they were given as {[t.fields.get('transcript_id') for t in txs]}", f"{q}.to_gff"))
+        k1, d = run(it, repo.fn(f"{q}.to_dict"), [], {}, g)
+        k2, g3 = run(it, repo.fn(f"{q}.from_dict"), [d], {}, ClassTok("GeneInterval")) if k1 == "ok" else (k1, d)
+        if k2 != "ok":
+            out.append(("primary after a dictionary round trip", f"{desc}: to_dict / from_dict after an export -> {k2}:{g3}", f"{q}.from_dict"))
+        else:
+            p3 = g3.fields.get("primary_transcript")
+            got3 = p3.fields.get("transcript_id") if isinstance(p3, Obj) else None
+            if got3 != f"t{idxs[want]}":
+                out.append(("primary after a dictionary round trip", f"{desc}: the gene exported with to_gff() and re-built from to_dict() names {got3} "
+                            f"primary; the documented choice among the children as given is t{idxs[want]}", f"{q}.to_gff"))
     # merged transcript / CDS: union of the children's chromosome blocks
     for acc, blocks in (("get_merged_transcript", [b for t in members for b in t["exons"]]),
                         ("get_merged_cds", [b for t in members if t["cds"] for b in t["cds"]])):
